@@ -620,6 +620,36 @@ class Evaluator:
         return self.exec_block(node.body, st)
 
     def st_Try(self, node, st):
+        # try: v = xs[-1] / xs[0] ... except IndexError: H   - "is xs empty?" asked the EAFP way: fork on it, so that the two
+        # paths carry the same fact an `if xs:` / `if len(xs) > 0:` test would establish
+        if node.body and not getattr(node, "_eafp_done", False) and isinstance(node.body[0], (ast.Assign, ast.AnnAssign, ast.Expr)) \
+                and getattr(node.body[0], "value", None) is not None:
+            subs = [n for n in ast.walk(node.body[0].value) if isinstance(n, ast.Subscript) and isinstance(n.ctx, ast.Load)
+                    and ((isinstance(n.slice, ast.Constant) and n.slice.value in (-1, 0)) or
+                         (isinstance(n.slice, ast.UnaryOp) and isinstance(n.slice.op, ast.USub)
+                          and isinstance(n.slice.operand, ast.Constant) and n.slice.operand.value == 1))]
+            fake = ("call", glob("IndexError"), (), ())
+            h = self._matching_handler(node, fake, st) if len(subs) == 1 else None
+            if h is not None and all(isinstance(x, (ast.Name, ast.Attribute)) for x in ast.walk(subs[0].value)
+                                     if not isinstance(x, (ast.Load, ast.Store))):
+                outs: List[Outcome] = []
+                for s2, truth, ex in self.branch(subs[0].value, st):
+                    if ex is not None:
+                        outs.append(Outcome(s2, ex))
+                    elif truth:
+                        node._eafp_done = True
+                        try:
+                            outs.extend(self.st_Try(node, s2))
+                        finally:
+                            node._eafp_done = False
+                    else:
+                        if h.name:
+                            s2.env[h.name] = fake
+                        hb = self.exec_block(h.body, s2)
+                        if node.finalbody:
+                            hb = [Outcome(o2.state, o2.exit if o2.exit else o.exit) for o in hb for o2 in self.exec_block(node.finalbody, o.state)]
+                        outs.extend(hb)
+                return outs
         entry = st.copy()
         res: List[Outcome] = []
         body_outs = self.exec_block(node.body, st)
@@ -1661,7 +1691,22 @@ class Evaluator:
             # a text buffer is an ordered list of written pieces; getvalue() is their concatenation
             return st.alloc({"kind": "list", "items": [], "sio": True})
         if name == "getattr" and len(args) >= 2 and is_const(args[1]):
+            if len(args) == 3 and args[0] == SELF and self.cls and isinstance(args[1][1], str) \
+                    and self.repo.find_method(self.cls, args[1][1]) is None and args[1][1] not in self._instance_attrs(self.cls) \
+                    and self._class_constant(self.cls, args[1][1], st) is None:
+                return args[2]            # getattr(self, "no_such_name", default)
             return self.get_attr(args[0], args[1][1], st)
+        if name == "next" and len(args) == 2 and args[0][0] == "call" and args[0][1] == glob("iter") and len(args[0][2]) == 1:
+            # next(iter(xs), d): the first element if there is one, else d
+            xs = args[0][2][0]
+            c = ("cmp", ">", ("call", glob("len"), (xs,), ()), const(0))
+            d = self.decide(c, st)
+            first = self.simplify(("sub", xs, const(0)), st)
+            if d is True:
+                return first
+            if d is False:
+                return args[1]
+            return ("ifexp", c, first, args[1])
         if name in ("functools.partial", "partial") and args and args[0][0] == "attr" and args[0][1] == SELF:
             return ("partial", args[0], tuple(args[1:]), tuple(sorted(kws.items())))
         if name == "vars" and len(args) == 1:
